@@ -316,6 +316,7 @@ type c11spec struct {
 	renews  int      // number of renewer threads (sequential renewals)
 	order   []string // explicit schedule ("X" one step, "X*" until blocked/done); empty = random
 	holdOPN bool     // hold the OPN response in the dispatcher until the renewal has timed out
+	sign    bool     // Basic256Sha256 / Sign instead of None
 }
 
 func c11run(r *rng.R, sp c11spec) error {
@@ -324,7 +325,20 @@ func c11run(r *rng.R, sp c11spec) error {
 		reqTimeout = 60 * time.Millisecond
 	}
 	ack := &uacp.Acknowledge{ReceiveBufSize: 8192, SendBufSize: 8192}
-	p, err := NewPair(PairOpts{Timeout: reqTimeout, ClientACK: ack})
+	po := PairOpts{Timeout: reqTimeout, ClientACK: ack}
+	if sp.sign {
+		cs, err := selfSigned("client")
+		if err != nil {
+			return err
+		}
+		ss, err := selfSigned("server")
+		if err != nil {
+			return err
+		}
+		cs.Policy, cs.Mode = ua.SecurityPolicyURIBasic256Sha256, ua.MessageSecurityModeSign
+		po.Sec, po.SrvSec = cs, ss
+	}
+	p, err := NewPair(po)
 	if err != nil {
 		return err
 	}
@@ -443,7 +457,20 @@ func c11run(r *rng.R, sp c11spec) error {
 	// let everything finish
 	ctl.FreeAll()
 	fs := b.waitFrames("c2s", before)
-	emit(map[string]interface{}{"kind": "case", "prop": "C11", "scenario": sp.name, "seq0": seq0, "req0": req0,
+	results := map[string]string{}
+	for _, t := range b.thrs {
+		select {
+		case err := <-t.result:
+			if err != nil {
+				results[t.name] = err.Error()
+			} else {
+				results[t.name] = "ok"
+			}
+		case <-time.After(4 * time.Second):
+			results[t.name] = "no result"
+		}
+	}
+	emit(map[string]interface{}{"kind": "case", "prop": "C11", "scenario": sp.name, "results": results, "sign": sp.sign, "seq0": seq0, "req0": req0,
 		"events": b.events, "wire": wireOf(fs), "schedule": schedule, "deadlock": deadlock, "log": b.log,
 		"chunks": sp.chunks, "renews": sp.renews, "full": true, "server_errors": p.Srv.Errs()})
 	return nil
